@@ -264,6 +264,44 @@ fn m6_writer_with_credit_vs_close() {
     report("m6_writer_with_credit_vs_close");
 }
 
+/// 8. writer needs three units with one available ∥ two separate `acknowledge(1)` calls
+#[test]
+fn m8_three_writes_two_acknowledges() {
+    model(|| {
+        let p = parts(1);
+        let Parts { stream, data, .. } = p;
+        let credit = data.psh_send_remaining.clone();
+        let w = thread::spawn(move || writer_obtains(&stream, 3));
+        data.acknowledge(1);
+        data.acknowledge(1);
+        let r = w.join().expect("writer");
+        assert_eq!(r, [true, true, true]);
+        assert_eq!(credit.load(Ordering::SeqCst), 0, "1 initial + 2 granted - 3 sent");
+        outcome(format!("{r:?}"));
+    });
+    report("m8_three_writes_two_acknowledges");
+}
+
+/// 9. writer wants two units from zero ∥ `acknowledge(1)` followed by a close
+#[test]
+fn m9_writer_vs_acknowledge_then_close() {
+    model(|| {
+        let p = parts(0);
+        let Parts { stream, data, .. } = p;
+        let credit = data.psh_send_remaining.clone();
+        let w = thread::spawn(move || writer_obtains(&stream, 2));
+        data.acknowledge(1);
+        data.disallow_write();
+        let r = w.join().expect("writer");
+        let left = credit.load(Ordering::SeqCst);
+        let sent = r.iter().filter(|x| **x).count() as u32;
+        assert_eq!(r.last(), Some(&false), "the writer must end up refused once the stream is closed");
+        assert_eq!(left + sent, 1, "credit left + frames sent = credit granted");
+        outcome(format!("{r:?} left={left}"));
+    });
+    report("m9_writer_vs_acknowledge_then_close");
+}
+
 // ---- flow-id allocation under concurrent opens (supplements the scheduler-level checks)
 
 #[derive(Debug)]
